@@ -205,6 +205,9 @@ pub fn run(cfg: &Cfg, rep: &mut Report) {
         }
         ctx.sample(|| jobj(&[("definition", jbytes(&def)), ("candidates", nc.to_string()), ("first_candidates", jarr(&cands.iter().take(6).map(|c| jbytes(c)).collect::<Vec<_>>()))]));
     });
+    // (1b) the rule applied to character data by derived enums (`from_mnemonic` is a chain of mnemonic_match guards
+    // generated by scpi-derive): the C20 corpus, a few candidates per variant
+    crate::props::c20::corpus_stage(cfg, rep, "C03", "derived-enums", cfg.n(1, 6, 120));
     // (2) well-known SCPI mnemonics and keywords
     const KNOWN: &[&[u8]] = &[
         b"MAXimum", b"MINimum", b"DEFault", b"UP", b"DOWN", b"INFinity", b"NINFinity", b"NAN", b"ONCE", b"ON", b"OFF", b"TRIGger", b"TRIGger2",
